@@ -14,10 +14,13 @@ def observe_same(P, R, qops, ctx, rtol=0.0, atol=0.0, sync=True, sched=None, con
     for q in qops:
         if sync:
             if not sync_streams(P.mab, R.mab):
-                ctx.fired("probe.sync_fell_back_to_parameter_view")
-                d = diff(pview(P.mab), pview(R.mab), rtol, atol)
-                ctx.fired("oracle.comparisons")
-                return ("params", d) if d else None
+                # Which generator objects are shared between the bandit, its policies and its per-arm models differs
+                # between the two bandits: they cannot be put at "the same random-stream position", so their later
+                # draws cannot coincide. (Design 4.4 foresaw a parameter-view fallback for LinTS before the repair of
+                # finding #4; since _Linear.fit re-binds the arm models, equal histories give equal aliasing.)
+                from .world import alias_partition
+                ctx.fired("probe.generator_aliasing_differs")
+                return ("aliasing", "generator aliasing %r vs %r" % (alias_partition(P.mab), alias_partition(R.mab)))
         rp = P.apply(q, sched=sched)
         rr = R.apply(q, sched=sched, container=container_r)
         ctx.fired("oracle.comparisons")
